@@ -11,6 +11,8 @@ import PyamgV.Proofs.BellmanFordTerm
 import PyamgV.Proofs.Checker
 import PyamgV.Proofs.ExtGraphColor
 import PyamgV.Proofs.ExtGraphMisK
+import PyamgV.Proofs.ExtC18Bal
+import PyamgV.Proofs.ExtC18Rcm
 
 /-! # C18 — graph algorithms return what their names promise
 
@@ -72,6 +74,57 @@ example : G.misK ⟨4, #[0,1,3,5,6], #[1,0,2,1,3,2]⟩ 2 (fun (z : Int) => z) #[
 /-! non-vacuity: the path 0–1–2–3 is a well-formed symmetric graph and the model returns {0, 2} -/
 example : Chk.checkMIS ⟨4, fun i => [[1],[0,2],[1,3],[2]].getD i []⟩
     (misSerial ⟨4, fun i => [[1],[0,2],[1,3],[2]].getD i []⟩ (-1) 1 0 #[-1,-1,-1,-1]) = true := by decide
+
+/-! ### extension (E20): balanced Bellman–Ford and symmetric RCM.
+The statements are about the validated executable models themselves (`Model/ExtC18Bal.lean`:
+`Bal.kernel`, `Bal.wrapper`, ops `ext_c18_bfbal`, `ext_c18_bfbal_w`; `Model/ExtC18Rcm.lean`:
+`Rcm.ppn`, `Rcm.rcmPerm`, ops `ext_c18_ppn`, `ext_c18_rcm`). -/
+/-- on weights in `h·ℕ` with `0 < tol`, `2·tol < h` the kernel's two float tests are the exact tests
+`d[i]+A_ij < d[j]` and `d[i]+A_ij = d[j]` -/
+restate bf_balanced_tests_exact := PyamgV.Bal.grid_tests
+/-- one inner-loop step (standard relaxation or tie-breaking re-assignment) keeps the invariant
+`Bal.Inv` (realising walks, centres fixed, in-cluster predecessors, exact predecessor counts); a step
+that leaves `done` set found the entry relaxed -/
+restate bf_balanced_step := PyamgV.Bal.step_spec
+/-- `bellman_ford_balanced` from any state satisfying the invariant (wrapper or Lloyd
+initialisation, or a previous final state), `tiebreaking` on or off: every run that returns has
+`Bal.Final`: shortest distances, nearest-centre labels, tight in-cluster predecessor chain, exact `pc` -/
+restate bf_balanced_kernel := PyamgV.Bal.kernel_spec
+/-- the wrapper's initial arrays satisfy the invariant -/
+restate bf_balanced_init := PyamgV.Bal.initSt_inv
+/-- `bellman_ford(G, centers, method='balanced', tiebreaking=tb)`: whenever the call returns -/
+restate bf_balanced_wrapper := PyamgV.Bal.wrapper_spec
+/-- positive weights: the public call never leaves its arrays (result `ok`, a Python error of the
+wrapper, or the kernel's "too many iterations"; never `fault`) -/
+restate bf_balanced_no_fault := PyamgV.Bal.wrapper_no_fault
+/-- positive weights: following `p` from an assigned node ends at a centre whose label is `m[j]`,
+and every node on the way carries that label -/
+restate bf_balanced_chain_to_centre := PyamgV.Bal.chain_to_centre
+/-- `pseudo_peripheral_node` returns (fuel `n+3` suffices) a node of the graph with its BFS arrays -/
+restate rcm_ppn_total := PyamgV.Rcm.ppn_spec
+/-- `symmetric_rcm` on a symmetric pattern (connected or not): the index vector is a permutation of `0..n-1` -/
+restate rcm_total := PyamgV.Rcm.rcm_total
+
+/-! non-vacuity (E20): the tree 1,2,3 – 0, 3 – 4 with unit weights and centres 0, 4: node 3 is at
+distance 1 from both; plain Bellman–Ford order puts it into cluster 0 (sizes 4/1), tie-breaking moves
+it to cluster 1 (sizes 3/2); both runs return, and the hypotheses of `bf_balanced_wrapper` hold
+(`h = 1`, `tol = 1e-14`) -/
+def exT : Bal.Csr := ⟨5, #[0,3,4,5,7,8], #[1,2,3,0,0,0,4,3], #[1,1,1,1,1,1,1,1]⟩
+def exOut (r : Bal.WRes) : Array (Option Rat) × Array Int × Array Int :=
+  match r with | .ok st => (st.d, st.m, st.p) | _ => (#[], #[], #[])
+example : exOut (Bal.wrapper (1/100000000000000) true exT [0,4]) =
+    (#[some 0, some 1, some 1, some 1, some 0], #[0,0,0,1,1], #[-1,0,0,4,-1]) := by decide +kernel
+example : exOut (Bal.wrapper (1/100000000000000) false exT [0,4]) =
+    (#[some 0, some 1, some 1, some 1, some 0], #[0,0,0,0,1], #[-1,0,0,0,-1]) := by decide +kernel
+example : (0 : Rat) < 1/100000000000000 ∧ 2 * (1/100000000000000 : Rat) < 1 ∧
+    ∀ e ∈ exT.entries, ∃ k : Nat, e.2.2 = (k : Rat) * 1 := by
+  refine ⟨by decide +kernel, by decide +kernel, fun e he => ⟨1, ?_⟩⟩
+  have h : ∀ e ∈ exT.entries, e.2.2 = 1 := by decide +kernel
+  rw [h e he]; simp
+/-! the path 0–1–2–3 plus two isolated nodes (a disconnected symmetric graph), start node 1: the
+pseudo-peripheral search moves to node 3 and then to node 0, the component loop appends 4 and 5 -/
+example : Rcm.rcmPerm ⟨6, #[0,1,3,5,6,6,6], #[1,0,2,1,3,2]⟩ 1 = some [5,4,3,2,1,0] := by decide
+example : Rcm.rcmPerm ⟨6, #[0,1,3,5,6,6,6], #[1,0,2,1,3,2]⟩ 4 = some [5,3,2,1,0,4] := by decide
 
 /-! ### interface facts regenerated from the working tree on every run (translator tie) -/
 /-- the `kernels_graph` table the models assume equals the one regenerated from the source now -/
